@@ -843,7 +843,12 @@ impl CodegenContext {
                                     None => self.current_scope_nx,
                                 };
 
-                                for (child_id, child_nx) in self.symbols.children(import_nx) {
+                                for (child_id, child_nx) in self
+                                    .symbols
+                                    .children(import_nx)
+                                    .into_iter()
+                                    .sorted_by(|a, b| a.0.cmp(&b.0))
+                                {
                                     // Do not import special identifiers
                                     if child_id.is_special() {
                                         continue;
